@@ -46,6 +46,9 @@ type C20Sc struct {
 	// ShortEvery: every n-th rated datagram is reported by the socket as written one byte short, with
 	// no error (0 = never)
 	ShortEvery int
+	// ZeroAdds: AddNode is called this many times with an all-zero ID (the node then pings the address to
+	// learn its ID; nobody opted out of rate limiting for those pings)
+	ZeroAdds int
 }
 
 var c20Rates = []float64{1e-6, 5, 50, 500, 20}
@@ -76,6 +79,10 @@ func genC20(t *rapid.T) C20Sc {
 	}
 	if uniformInt(t, 4, "short") == 0 {
 		sc.ShortEvery = 1 + uniformInt(t, 3, "shortevery")
+	}
+	if sc.RateIdx != 0 && uniformInt(t, 4, "zeroadds") == 0 {
+		// (not with the non-refilling limiter: such a ping would wait for budget beyond the end of the case)
+		sc.ZeroAdds = 1 + uniformInt(t, 12, "nzeroadds")
 	}
 	if sc.WaitToReply && (sc.RateIdx == 0 || (sc.RateIdx < 3 && sc.Flood > 40)) {
 		// replies waiting for a token that never comes would outlive the case
@@ -177,6 +184,13 @@ func runC20(sc C20Sc, c *kit.Case) *kit.Violation {
 		c.Label("prelude-then-refill")
 	}
 	flood(0, sc.Flood/2)
+	for i := 0; i < sc.ZeroAdds; i++ {
+		sv.S.AddNode(krpc.NodeInfo{Addr: krpc.NodeAddr{IP: net.IP{96, 0, 0, byte(1 + i)}, Port: 9600 + i}})
+		offered++
+	}
+	if sc.ZeroAdds > 0 {
+		c.Label("addnode-with-unknown-id")
+	}
 	// 2. outbound queries, concurrently with the flood
 	var wg sync.WaitGroup
 	type qout struct {
